@@ -3,8 +3,77 @@ N_QUICK = 500
 N_THOROUGH = 9000
 MODEL_SHOW = "run"
 DISAGREE_IS_VIOLATION = True   # the event log is exactly what the property talks about
-RULE = ("placeholder")
-TRUSTED_BASE = ["placeholder"]
-ASSUMPTIONS = ["placeholder"]
-TECHNIQUE = "placeholder"
-LEVEL_TEXT = "placeholder"
+RULE = ("exhaustive (bare ModList): every assignment of {sync ok, sync fail, completes later, calls next twice} to the "
+        "Start (resp. Stop) behaviour of n <= 2 (quick) / 3 (thorough) modules, followed by every sequence of <= 2 / 3 "
+        "environment completions (which captured continuation, true/false) in every order; random: 0-5 modules in bare "
+        "ModList / baseapp.App via LaunchAppWithMode / unprepared App / node App via StartNode, two thirds of the histories "
+        "well behaved (sync, later, failing, panicking-after-next modules; completions aimed at the module that is waiting), "
+        "one third adversarial (double/triple next, panic before next, stale and out-of-range completions, repeated "
+        "Start/Stop); builtin: 20 fixed scenarios x the real Welcome/ActorSystem/Cluster modules (self cluster, "
+        "StartMember failure = F5 path, remote listen failure, nil node info, stop paths). Non-trivial = at least one "
+        "module Start/Stop was entered; distinct = distinct op lists.")
+TRUSTED_BASE = [
+    "Coq 8.16.1 kernel + vm_compute (case evaluation, Examples); no native_compute",
+    "hand translation baseapp/module/modulelist.go (Filter/Start/Stop), baseapp/app.go (Start/Stop/Cleanup), "
+    "node/modules/{welcome,actor,cluster} Start/Stop -> C11/Model.v, measured by this correspondence run on every case",
+    "Go harness harness/c11 (recording wrapper modules; run ids attributed by the harness from the call in progress; "
+    "each operation executed on its own goroutine and joined; 4 s watchdog), bin/check.py JSON->Coq term printer",
+    "modelled not verified: sync.RWMutex of ModList (operations are sequential in the harness), RunService/timers, "
+    "etcd (only the offline failure path of StartMember is exercised; NewWithConfig failure and StartMember success are "
+    "model-only), protoactor remote (listen success / EADDRINUSE), provider.Shutdown assumed to return",
+]
+ASSUMPTIONS = [
+    "the module list is not changed once Start or Stop has been called (AddModule during a run is outside the model)",
+    "Start/Stop/next are not invoked concurrently for the same ModList (the framework calls them from the App's service); "
+    "a module's Start/Stop returns (a blocking etcd call is not a completion-count issue)",
+    "order/first-failure/finish-once theorems are under the stated hypothesis that no module invokes next more often than it "
+    "was entered (at_most_once) resp. exactly as often (exactly_once); without it C11_accounting/C11_never_twice say what happens",
+    "ActorSystemModule.Stop reports once provided its actor system exists and is not shut down, ClusterModule.Stop provided "
+    "its own Start did not fail inside StartMember's init (both true under the App guard: Stop only after every Start "
+    "succeeded; a bare ModList.Stop after a failed Start panics inside these Stops and never calls next - observed on the "
+    "real code and modelled as such)",
+    "the launch mode's PrepareModules adds the modules once (LaunchAppWithMode calls it before the state guard)",
+    "hooks/C11-fix-cluster-start-return.patch and hooks/C11-fix-actor-start-listen-panic.patch are applied to the repo under test",
+]
+TECHNIQUE = ("Coq proof (work-list semantics of the continuation machine; per-run invariant linking it to a one-at-a-time "
+             "automaton, potential function for termination, global invariants for App guards; all by induction over "
+             "histories) + differential correspondence and property monitor against the real ModList / App / shipped modules")
+LEVEL_TEXT = ("Machine-checked Coq theorems, unbounded in module lists, behaviours, histories and orders of delayed completions: "
+              "start order / first failure / finish exactly once / exact reverse stop order under the at-most-once resp. "
+              "exactly-once hypothesis, unconditional accounting and no-double-entry theorems, App state guards, one next() on "
+              "every path of every shipped module (repaired code). The model is tied to the Go code by running both on the same "
+              "histories each run (events must be identical) and by evaluating the theorem statements on the implementation's own traces.")
+
+
+def extra_coverage(cases):
+    """event counts, and how many runs satisfy the theorems' hypotheses (so that the monitor is not vacuous)"""
+    ev = {}
+    runs = amo = exact = 0
+    for c in cases:
+        per_run = {}
+        for x in c.get("obs") or []:
+            for e in x:
+                if not isinstance(e, dict):
+                    ev[str(e)] = ev.get(str(e), 0) + 1
+                    continue
+                k, a = next(iter(e.items()))
+                ev[k] = ev.get(k, 0) + 1
+                if k in ("EEnter", "ENext", "EFin"):
+                    per_run.setdefault(a[0], []).append((k, a[1:]))
+        for t in per_run.values():
+            runs += 1
+            pend, good = [], True
+            for k, a in t:
+                if k == "EEnter":
+                    pend.append(a[0])
+                elif k == "ENext":
+                    if a[0] in pend:
+                        pend.remove(a[0])
+                    else:
+                        good = False
+                        break
+            if good:
+                amo += 1
+                if not pend:
+                    exact += 1
+    return {"event_counts": ev, "runs_observed": runs, "runs_at_most_once": amo, "runs_exactly_once": exact}
